@@ -189,3 +189,29 @@ func ScratchHash(p *position.Position) uint64 {
 	}
 	return h
 }
+
+// MaterialOK: material that a legal game can reach: per side at most 8 pawns, 16 men, and no more
+// promoted pieces than missing pawns.
+func MaterialOK(p *position.Position) bool {
+	for c := 0; c < 2; c++ {
+		cnt := [6]int{}
+		total := 0
+		for s := 0; s < 64; s++ {
+			pc := p.PiecesBoard[s]
+			if pc != types.NO_PIECE && validPiece(pc) && int(pc.Color()) == c {
+				cnt[pc.Type()]++
+				total++
+			}
+		}
+		extra := 0
+		for t, base := range map[int]int{1: 2, 2: 2, 3: 2, 4: 1} {
+			if cnt[t] > base {
+				extra += cnt[t] - base
+			}
+		}
+		if cnt[0] > 8 || total > 16 || extra > 8-cnt[0] || cnt[5] != 1 {
+			return false
+		}
+	}
+	return true
+}
